@@ -137,6 +137,27 @@ def far_pass(ctx, L, units):
         ks = [k for k in ks if k >= 1]
         call = JC.c05_call
         nv += _sweep(ctx, u, ks, (lambda a, u=u: JC.c05_call(L, u, a)()), 'marks far beyond the table', (lambda a, u=u: JC.c05_replay(u, a)))
+        if u.sys == 'ty' and u.timed:
+            # the same far marks as hand-timed texts (one decimal, whole seconds): still within bounds, still monotone
+            lo_, hi_ = JC.BOUNDS[u.sys]
+            for form in ('%d.%d', '%d'):
+                prev = None
+                for k in sorted({k - k % 10 for k in ks if k >= 10} if form == '%d.%d' else {k - k % 100 for k in ks if k >= 100}):
+                    arg = form % ((k // 100, k % 100 // 10) if form == '%d.%d' else (k // 100,))
+                    r = JC.canon(JC.c05_call(L, u, arg))
+                    ctx.count(1, 'calls_variants')
+                    if not r.startswith('p '):
+                        prev = None; continue
+                    pnt = int(r[2:])
+                    if pnt < lo_ or (hi_ is not None and pnt > hi_):
+                        nv += 1
+                        ctx.fail(JC.FN[u.sys], list(u.key) + [arg, 'hand-timed text far beyond the table'], 'an int in %s..%s' % (lo_, '' if hi_ is None else hi_), '%d' % pnt,
+                                 note='bounds: hand-timed text far beyond the table', replay_py='result = ' + JC.c05_replay(u, arg))
+                    if prev is not None and pnt > prev[1]:
+                        nv += 1
+                        ctx.fail(JC.FN[u.sys], list(u.key) + [prev[0], arg], 'points(%s) <= points(%s) = %d (slower hand-timed mark)' % (arg, prev[0], prev[1]), '%d' % pnt,
+                                 note='mono: hand-timed text far beyond the table', replay_py='result = (%s, %s)' % (JC.c05_replay(u, prev[0]), JC.c05_replay(u, arg)))
+                    prev = (arg, pnt)
     ctx.stats['tables_swept_far_beyond'] = len(seen)
     return nv
 
